@@ -113,7 +113,7 @@ def parse_mir(text):
         m = re.match(r"^const ([\w:]+): (\w+) = const (\S+?);", ln)
         if m:
             consts[m.group(1).split("::")[-1]] = (m.group(3), m.group(2))
-        mc = re.match(r"^const ([\w:<> ]+?): (\w+) = \{$", ln)
+        mc = re.match(r"^const ([\w:<> ./-]+?): ([\w:]+) = \{$", ln)
         if mc:
             ln = f"fn const:{mc.group(1).split('::')[-1]}() -> {mc.group(2)} {{"
         mp = re.match(r"^const (.+::promoted\[\d+\]): (&?[\w:]+) = \{$", ln)
@@ -972,11 +972,15 @@ class Explorer:
                 elif short in ("get_record", "get_record_mut") and len(args) == 1 and isinstance(args[0], Ref):
                     # pure accessor of the trait object: same receiver -> same record object
                     rv = Ref(("record-of", args[0].obj, args[0].path), ())
-                elif short in self.pure_accessors and len(args) == 1 and isinstance(args[0], Ref) and dest and re.fullmatch(r"_\d+", dest.strip()):
-                    # pure scalar accessor of a trait object: one symbol per (accessor, receiver)
-                    key = (short, args[0].obj, args[0].path)
+                elif short in self.pure_accessors and len(args) >= 1 and isinstance(args[0], Ref) and dest and re.fullmatch(r"_\d+", dest.strip()) \
+                        and all(isinstance(a, BV) for a in args[1:]):
+                    # pure scalar accessor of a trait object: one symbol per (accessor, receiver[, scalar arguments])
+                    key = (short, args[0].obj, args[0].path) + tuple(str(a.e) for a in args[1:])
                     if key not in st.acc:
                         st.acc[key] = fresh_of_type(fr.func.local_types.get(dest.strip(), "u64"), "acc." + short, False)
+                        if isinstance(st.acc[key], Opaque) and short in getattr(self, "enum_accessors", ()):
+                            # an accessor returning a fieldless enum: its variant as a number (see ENUM_IDS)
+                            st.acc[key] = BV(z3.BitVec(f"acc.{short}!{next(_fresh)}", 16), 16)
                     rv = st.acc[key]
                 elif re.search(r"slice::<impl \[\w+\]>::get$", cname) and callee.endswith("::get::<usize>") and len(args) == 2 and isinstance(args[0], Ref) and isinstance(args[1], BV):
                     # <[T]>::get(i): Some(&element) exactly when i < len (its contract); the element itself is arbitrary
